@@ -713,6 +713,9 @@ func ruleBufSize(c *Ctx, a *udpAnchors, rule string) {
 func rootParam(c *Ctx, v ssa.Value, rf *ssa.Function, typ string) bool {
 	g, _ := c.P.AllFrom(v, deepF, func(x ssa.Value) bool {
 		pa, isP := baseRoot(x).(*ssa.Parameter)
+		if !isP {
+			pa, isP = baseRoot2(x, true).(*ssa.Parameter)
+		}
 		if !isP || eng.Root(pa.Parent()) != rf {
 			return false
 		}
